@@ -4,7 +4,7 @@
 #   1. the patch applies to /repo's HEAD, 2. the demo passes without it, 3. the whole test suite builds and passes with it,
 #   4. the demo fails with it.  On success the change is stored as /verif/seeded/<seed-id>/ (patch.diff, demo.cpp, demo.cmd, meta.json skeleton).
 src="$1"; k="$2"; id="$3"; prop="$4"
-B=/tmp/wt_base
+B=${BASE:-/tmp/wt_base}
 log=/tmp/confirm_$id.log
 : > $log
 cd $B || exit 2
